@@ -184,6 +184,24 @@ fn solve_builder(fam: FamId, keys: &[Secret], seq: u64, target: usize) -> Option
     None
 }
 
+/// Builder calls whose model result is exactly N bytes, N = 296..=304, for the built-in families: the window in
+/// which an off-by-a-few size guard of the builder shows.  Shared with C04 and C05 (a 301-byte record that is
+/// handed out does not decode back).
+pub fn builder_sweep() -> Vec<History> {
+    let mut out = Vec::new();
+    for fam in [FamId::K256, FamId::Ed, FamId::CombinedSecp] {
+        let keys = history::exhaustive_keys(fam);
+        for seq in [1u64, 127, 65535] {
+            for n in 296..=304usize {
+                if let Some(h) = solve_builder(fam, &keys, seq, n) {
+                    out.push(h);
+                }
+            }
+        }
+    }
+    out
+}
+
 impl Property for C09 {
     fn id(&self) -> &'static str {
         "C09"
